@@ -8,6 +8,7 @@ import (
 	"os/exec"
 	"runtime/debug"
 	"sync"
+	"sync/atomic"
 	"time"
 
 	"github.com/pgavlin/dawn/internal/verifhook"
@@ -28,6 +29,7 @@ type crashHandler struct {
 	n     int
 	hits  []string
 	flush func()
+	jit   atomic.Int64
 }
 
 func (c *crashHandler) Yield(string)   {}
@@ -37,6 +39,11 @@ func (c *crashHandler) Spawn()         {}
 func (c *crashHandler) Begin(string)   {}
 func (c *crashHandler) End()           {}
 func (c *crashHandler) Crash(site, label string) {
+	if c.req.SaveJitter && (site == "save.afterCreateTemp" || site == "save.afterEncode") {
+		// widen the window between creating and renaming a record's temporary file, so that record
+		// writes of parallel targets overlap
+		time.Sleep(time.Duration(50+37*(c.jit.Add(1)%9)) * time.Microsecond)
+	}
 	c.mu.Lock()
 	defer c.mu.Unlock()
 	if c.req.CountHits {
